@@ -77,6 +77,8 @@ pub struct C03Scenario {
     renewals_granted: usize,
     incarnation: usize,
     stores: Vec<Arc<GatedStore>>,
+    /// the live compactor object of every node (a crash replaces it)
+    compactors: BTreeMap<String, Arc<Compactor>>,
 }
 
 impl C03Scenario {
@@ -96,6 +98,7 @@ impl C03Scenario {
             renewals_granted: 0,
             incarnation: 0,
             stores: Vec::new(),
+            compactors: BTreeMap::new(),
         }
     }
     fn is_os(&self) -> bool {
@@ -111,13 +114,14 @@ impl C03Scenario {
         } else {
             GatedMeta::new(self.local.clone(), node, ctl)
         };
-        let compactor = Compactor::new(
+        let compactor = Arc::new(Compactor::new(
             compactor_config(),
             gs as Arc<dyn ObjectStore>,
             meta,
             storage_config(),
             Arc::new(ShardMonitor::new(HotShardConfig::default())),
-        );
+        ));
+        self.compactors.insert(node.to_string(), compactor.clone());
         let shared = self.shared.clone();
         let node2 = node.to_string();
         ctl.spawn(node, node, async move {
@@ -376,6 +380,43 @@ impl Scenario for C03Scenario {
                 });
             }
         }
+        // Epilogue: let the grace period pass and give every live compactor one more (fault-free) cycle, so that
+        // whatever the explored cycle scheduled for deletion is actually deleted; then the catalog must still only
+        // list objects that exist, and the reachable rows must still be exactly the original ones.
+        if f.violations.is_empty() {
+            ctl.env().advance_wall_secs(301);
+            let nodes: Vec<(String, Arc<Compactor>)> = self.compactors.iter().map(|(n, c)| (n.clone(), c.clone())).collect();
+            for (n, c) in nodes {
+                let shared = self.shared.clone();
+                let n2 = n.clone();
+                ctl.spawn(&n, &format!("{n}-gc"), async move {
+                    let r = c.run_compaction_cycle().await.map_err(|e| e.to_string());
+                    shared.lock().unwrap().cycle_results.push((format!("{n2}-gc"), 99, r));
+                });
+            }
+            ctl.run_free(3000).await;
+            let cat2 = self.catalog_now().await.unwrap_or_default();
+            let paths2: Vec<String> = cat2.keys().cloned().collect();
+            let deletes: Vec<String> = self.log.snapshot().iter().filter(|e| e.kind == "DELETE" && e.ok).map(|e| e.path.clone()).collect();
+            match reachable_ids(&self.mem, &paths2, &mut BTreeMap::new()).await {
+                Err(p) => f.violations.push(Violation {
+                    sig: "C03:gc-deleted-a-listed-chunk".into(),
+                    msg: format!("after the grace period and one more cycle the catalog lists {p}, but the object is gone; deletes sent: {deletes:?}; cycles {:?}", self.shared.lock().unwrap().cycle_results),
+                }),
+                Ok(ids) => {
+                    let (missing, extra) = multiset_diff(&ids, &self.original);
+                    if !missing.is_empty() {
+                        f.violations.push(Violation { sig: "C03:rows-lost-after-gc-cycle".into(), msg: format!("ids {missing:?} missing after the grace period and one more cycle; listed {paths2:?}; deletes sent: {deletes:?}") });
+                    }
+                    if !extra.is_empty() && !ctl.trace().iter().any(|l| l.contains("*CRASH") || l.contains(" !Fail") || l.contains("*CLOCK")) {
+                        f.violations.push(Violation { sig: format!("C03:rows-duplicated-after-gc-cycle:{}", self.p.backend), msg: format!("ids {extra:?} reachable more than once after one more cycle; listed {paths2:?}") });
+                    }
+                }
+            }
+            if !deletes.is_empty() {
+                f.flags.push("gc_deleted_sources".into());
+            }
+        }
         let compacted = paths.iter().any(|p| p.contains("/compacted/"));
         if compacted {
             f.flags.push("compaction_completed".into());
@@ -441,7 +482,7 @@ pub fn run(tier: &str) -> i32 {
     let d = rep.get_u64("distinct_outcomes");
     rep.set("distinct_nontrivial", d);
     rep.set("vacuity", json!({"observed": seen}));
-    for need in ["object-store:compaction_completed", "in-memory:compaction_completed"] {
+    for need in ["object-store:compaction_completed", "in-memory:compaction_completed", "object-store:gc_deleted_sources", "in-memory:gc_deleted_sources"] {
         if !seen.contains(need) {
             rep.machinery(format!("vacuity guard: no execution showed `{need}` (no compaction ever completed)"));
         }
